@@ -533,13 +533,26 @@ def collect_filters(fn: ast.AST) -> List[Dict[str, object]]:
         if isinstance(n, ast.For):
             var = norm(n.target)
 
+            aliases: Dict[str, str] = {}
+
+            def unalias(src: str) -> str:
+                import re as _re
+                for a_, v_ in aliases.items():
+                    src = _re.sub(r'(?<![\w.])' + _re.escape(a_) + r'(?!\w)', v_, src)
+                return src
+
             def harvest(body, conds, terms=()):
                 for st in body:
+                    # `item = ref` inside the loop: another name for the loop variable (left behind when a selection and the loop over it are fused)
+                    if isinstance(st, ast.Assign) and len(st.targets) == 1 and isinstance(st.targets[0], ast.Name) and isinstance(st.value, ast.Name) \
+                            and st.value.id == var and sum(1 for x in ast.walk(n) if isinstance(x, ast.Name) and x.id == st.targets[0].id and isinstance(x.ctx, ast.Store)) == 1:
+                        aliases[st.targets[0].id] = var
+                        continue
                     if isinstance(st, ast.If) and not st.orelse:
                         harvest(st.body, conds + [norm(st.test).replace(' ', '')], tuple(terms) + tuple(conjuncts(term(st.test, True))))
                     elif isinstance(st, ast.Expr) and isinstance(st.value, ast.Call) and isinstance(st.value.func, ast.Attribute) \
                             and st.value.func.attr in ('append', 'add') and len(st.value.args) == 1:
-                        out.append({'iter': norm(n.iter), 'var': var, 'elt': norm(st.value.args[0]), 'conds': list(conds), 'node': n,
+                        out.append({'iter': norm(n.iter), 'var': var, 'elt': unalias(norm(st.value.args[0])), 'conds': list(conds), 'node': n,
                                     'into': norm(st.value.func.value), 'terms': list(terms)})
                     elif isinstance(st, ast.Expr) and isinstance(st.value, ast.Yield) and st.value.value is not None:
                         out.append({'iter': norm(n.iter), 'var': var, 'elt': norm(st.value.value), 'conds': list(conds), 'node': n, 'terms': list(terms)})
@@ -557,7 +570,10 @@ def select_filter(fn: ast.AST, iter_src: str, want_terms, elt_is_var: bool = Tru
     for f in cands:
         v = f['var']
         want = {_sub_var(t, v) for t in want_terms}
-        if set(f['terms']) == want and ((not elt_is_var) or f['elt'] == v) and (elt_pred is None or elt_pred(f)):
+        # the selected element is the loop variable itself, or (a selection fused with the loop that consumes it) a call with the variable as an argument
+        import re as _re
+        whole = f['elt'] == v or bool(_re.search(r'[(,] ?' + _re.escape(v) + r' ?[,)]', f['elt']))
+        if set(f['terms']) == want and ((not elt_is_var) or whole) and (elt_pred is None or elt_pred(f)):
             return 'ok', f
     return 'bad', cands[0]
 
